@@ -122,7 +122,7 @@ class Run:
         self.transitions += st["generated"]
         return p.stdout, st
 
-    def tlc_replay(self, module, family, cfg=None, workers=None, extra=(), timeout=1800, heap="6g", replay_args=()):
+    def tlc_replay(self, module, family, cfg=None, workers=None, extra=(), timeout=900, heap="6g", replay_args=()):
         """Run TLC with its stdout piped into `vh replay`; return (summary, mismatches, stats)."""
         cmd = self.tlc_cmd(module, cfg, workers, extra, heap)
         mis = os.path.join(self.scratch, family + ".mis.ndjson")
